@@ -109,6 +109,8 @@ type World struct {
 	StopOn     string // property whose first violation stops the run ("" = never stop early, "*" any)
 	NameCheckRelevant bool
 	DeepReads bool
+	CrashPoints []string // class of the call each crash preceded
+	CrashEnum bool
 	DeepRefsFor bool
 }
 
@@ -146,6 +148,14 @@ func (w *World) probe(name string) { w.Probes[name]++ }
 func (w *World) violate(prop, monitor, sig, detail string) {
 	v := Violation{Property: prop, Monitor: monitor, Signature: prop + "/" + monitor + "/" + sig, Detail: detail, Seq: w.Sim.EventCount()}
 	w.Violations = append(w.Violations, v)
+	// C06: after a crash, a failing open, a broken list, a wrong final
+	// state or a failing read is (also) a crash-consistency violation.
+	if w.CrashEnum && w.Crashes > 0 && (prop == "C04" || prop == "C05" || prop == "C10") {
+		w.Violations = append(w.Violations, Violation{Property: "C06", Monitor: monitor, Signature: "C06/" + monitor + "/" + sig, Detail: "after a crash: " + detail, Seq: v.Seq})
+		if w.StopOn == "C06" {
+			w.Sim.Stop = true
+		}
+	}
 	if w.StopOn == "*" || w.StopOn == prop {
 		w.Sim.Stop = true
 	}
@@ -234,6 +244,15 @@ func (w *World) curCallOf(task int) *CallRec { return w.curCall[task] }
 func (w *World) onEvent(ev *simrt.Event) {
 	if ev.Kind == "CRASH" {
 		w.Crashes++
+		f := strings.SplitN(ev.Path, " ", 2)
+		cp := f[0]
+		if len(f) > 1 {
+			cp += ":" + pathClassOf(f[1])
+		}
+		if cr := w.curCall[ev.Task]; cr != nil {
+			cp = fmt.Sprintf("%s#%d", cp, cr.Events/8)
+		}
+		w.CrashPoints = append(w.CrashPoints, cp)
 		w.checkListIntegrity(ev, true)
 		return
 	}
